@@ -26,7 +26,8 @@ REQUIRED = {
               "class/arb_outside_threshold_index_rich": 55, "class/arb_near_threshold": 100,
               "orders_checked_wellformed": 3000, "class/share_choice_checked": 300,
               "class/mm_handed_only_part_of_the_markets": 300,
-              "class/arb_two_indices_sharing_components:2_outside_the_threshold": 8},
+              "class/arb_two_indices_sharing_components:2_outside_the_threshold": 8,
+              "class/fcn_expected_price_equals_market_price": 40},
     "thorough": {"evaluations/FCNAgent": 60000, "evaluations/MarketShareFCNAgent": 15000,
                  "evaluations/MarketMakerAgent": 24000, "evaluations/ArbitrageAgent": 12000, "class/fcn_buy": 12000,
                  "class/fcn_sell": 12000, "class/fcn_normal_margin": 9000, "class/mm_base_from_quotes": 6000,
@@ -34,7 +35,8 @@ REQUIRED = {
                  "class/arb_gap_equals_threshold": 700, "class/arb_outside_threshold_index_cheap": 2400, "class/arb_outside_threshold_index_rich": 2400,
                  "class/arb_near_threshold": 3000, "orders_checked_wellformed": 90000,
                  "class/share_choice_checked": 9000, "class/mm_handed_only_part_of_the_markets": 9000,
-                 "class/arb_two_indices_sharing_components:2_outside_the_threshold": 2000},
+                 "class/arb_two_indices_sharing_components:2_outside_the_threshold": 2000,
+                 "class/fcn_expected_price_equals_market_price": 10000},
 }
 
 
@@ -339,6 +341,11 @@ def eval_fcn(res, world, rng, share):
     a = cls(agent_id=rng.randint(0, 50), prng=prng, simulator=world.sim, name="a")
     mt = rng.choice([None, "fixed", "fixed", "normal"])
     st = fcn_settings(rng, mt)
+    tie = (not share) and rng.random() < 0.06
+    if tie:
+        # a state in which the expected future price EQUALS the market price: no noise, no chart term, and (below) a
+        # fundamental price equal to the market price - the agent must neither buy nor sell
+        st.update({"noiseWeight": 0.0, "chartWeight": 0.0, "fundamentalWeight": rng.choice([1.0, 5.0])})
     acc = [m.market_id for m in world.markets if rng.random() < 0.8] or [world.markets[0].market_id]
     try:
         a.setup(settings=st, accessible_markets_ids=acc)
@@ -352,9 +359,15 @@ def eval_fcn(res, world, rng, share):
     if a.fundamental_weight + a.chart_weight + a.noise_weight <= 0:
         res.count("fcn_zero_weight_sum(not admissible)")
         return
+    saved_f = {}
+    if tie:
+        for m in world.markets:
+            t_ = m.get_time()
+            saved_f[m.market_id] = (m, t_, m._fundamental_prices[t_])
+            m._fundamental_prices[t_] = m.get_market_price()
     del prng.log[:]
     res.count("evaluations/" + name)
-    wit = {"class": name, "settings": st, "accessible": acc, "time": world.markets[0].get_time()}
+    wit = {"class": name, "settings": st, "accessible": acc, "time": world.markets[0].get_time(), "tie_state": tie}
     try:
         orders = a.submit_orders(markets=world.markets)
     except AssertionError as e:
@@ -363,6 +376,15 @@ def eval_fcn(res, world, rng, share):
         return
     except Exception as e:  # noqa
         res.violation("fcn", "built-in-agent-raised-on-admissible-state", dict(wit, exc=repr(e)))
+        return
+    finally:
+        for m_, t_, f_ in saved_f.values():
+            m_._fundamental_prices[t_] = f_
+    if tie:
+        res.count("class/fcn_expected_price_equals_market_price")
+        if orders:
+            res.violation("fcn", "fcn-ordered-although-expected-price-equals-market-price",
+                          dict(wit, orders=[repr(o) for o in orders]))
         return
     if not wellformed(res, a, orders, name):
         return
